@@ -256,7 +256,7 @@ def check_vector(v):
 
 def run(ctx):
     quick = ctx.tier == "quick"
-    res = ctx.tlc("MC_C16", spec="Spec", constants={"MaxRecs": 2 if quick else 3, "Pick": list(range(1, 9))}, invariants=["RoundTrip", "SizesAdd", "Emit"], coverage=True)
+    res = ctx.tlc("MC_C16", spec="Spec", constants={"MaxRecs": 2 if quick else 3, "Pick": list(range(1, 11))}, invariants=["RoundTrip", "SizesAdd", "Emit"], coverage=True)
     ctx.require_actions(res, "MC_C16", ["Add"])
     vectors = res.vectors
     # files of four (five) records from two templates of equal and of different size: selections that permute or repeat inner records
